@@ -5,8 +5,15 @@
    linear normalisation, lowering to propagator descriptions, validation, known-class predicates).
    Statements only; proofs in Proofs/LowerProofs.v and Proofs/LowerSolve.v.
 
-   Known-defect class of the lowering (decidable predicate of Model/Lower.v):
-     kf_or_not     Or lowered like And (outside `x==a || x==b`), Not lowered as the identity   (D3)
+   Repaired (D3, class or_not): materialize_constraint_kind lowers Or and Not through
+   reification (reify_constraint_kind: a fresh boolean per comparison tied by an Int*Reif / IntLin*Reif
+   propagator, bool_and / bool_or / bool_not for the combinators; Or: the bool_or's result is 1, Not:
+   the boolean is 0; Model/Lower.v reify, materialize).  lower_denotes, spellings_agree and
+   fluent_model_solutions hold for EVERY tree (no class premise); the hidden booleans are
+   existentially quantified like the auxiliary variables of compound sub-expressions (reify_denotes).
+   The pre-repair lowering (Or like And outside `x==a || x==b`, Not as the identity) is kept as
+   Lower.materialize_prefix / lower_prefix with its class predicate kf_or_not for the refutation
+   lemmas or_prefix_refuted, not_prefix_refuted, any_of_prefix_refuted.
    Repaired (D3, 106df3d): a `!=` reaching the Binary arm (nested under and/or/not, or between
    non-linear sides) is lowered to the NotEquals propagator, which used to be a no-op and now
    prunes (Props/Neq.v, good: C05_Neq; pneq_good): the former class kf_nested_ne is gone,
@@ -25,7 +32,7 @@
    validate s ps = None (validate_none_nonempty) and from wf_store s (fluent_model_solutions).
    Repaired: posting Var==Var on an emptied domain no longer panics (eq_on_empty_invalid). *)
 Require Import Selen.Model.Prelude Selen.Model.Dom Selen.Model.Views Selen.Model.PropDefs.
-Require Import Selen.Model.Props.Basic Selen.Model.Props.LinInt Selen.Model.Propagate Selen.Model.Search Selen.Model.EngineSpec.
+Require Import Selen.Model.Props.Basic Selen.Model.Props.LinInt Selen.Model.Props.Logic Selen.Model.Propagate Selen.Model.Search Selen.Model.EngineSpec.
 Require Import Selen.Model.Api Selen.Model.Lower.
 Require Import Selen.Proofs.LowerProofs Selen.Proofs.LowerSolve.
 
@@ -60,13 +67,29 @@ Theorem aux_dom_sound : forall (s : store) a e x, inst a s -> escoped (length s)
 Proof. exact EBoundsSound.aux_dom_sound. Qed.
 Print Assumptions aux_dom_sound.
 
+(* ---- reification (the repair of D3): reify_constraint_kind returns a boolean variable that
+   carries the truth value of the tree.  `vspec R st v st'` (LowerProofs.v): every assignment of the
+   extended store that satisfies the added propagators restricts to one of the old store and has
+   R a (a v); every assignment of the old store with R a x extends (auxiliaries and hidden booleans)
+   to one with a' v = x -- for final stores without an empty domain.  Rc c a x: the tree is defined
+   at a and x is its truth value as 0 / 1 ---- *)
+Theorem reify_denotes : forall c st, cscoped (nvars st) c ->
+  vspec (Rc c) st (fst (reify c st)) (snd (reify c st)).
+Proof. exact LowerProofs.reify_ok. Qed.
+Print Assumptions reify_denotes.
+
 (* ---- one tree: materialize_constraint_kind adds exactly `impl_cons c` (induction on trees;
-   auxiliary variables, immediate Var==Val edits, the Or special case).  `step` (LowerProofs.v):
-   soundness unconditionally; completeness for final stores without an empty domain ---- *)
+   auxiliary variables, immediate Var==Val edits, the Or special case, Or / Not through reification).
+   `step` (LowerProofs.v): soundness unconditionally; completeness for final stores without an
+   empty domain.  impl_cons IS the arithmetic reading (impl_is_holds) ---- *)
 Theorem materialize_denotes : forall c st, cscoped (nvars st) c ->
   step st (materialize c st) (fun a => impl_cons c a = true).
 Proof. exact LowerProofs.materialize_ok. Qed.
 Print Assumptions materialize_denotes.
+
+Theorem impl_is_holds : forall c a, impl_cons c a = holds c a.
+Proof. exact LowerProofs.impl_holds. Qed.
+Print Assumptions impl_is_holds.
 
 (* ---- whole programs (declarations, then any sequence of m.new / lin_eq / lin_le / lin_ne): exact denotation of
    the lowered model, known classes included; the last conjunct is the in-range condition ---- *)
@@ -83,10 +106,10 @@ Theorem validate_none_nonempty : forall s ps, validate s ps = None -> doms_nonem
 Proof. exact LowerProofs.validate_none_nonempty. Qed.
 Print Assumptions validate_none_nonempty.
 
-(* ---- the property: outside the known classes the lowered model means the trees ---- *)
+(* ---- the property: the lowered model means the trees -- comparisons and every and / or / not
+   combination of them (no known-class premise since the repair of D3) ---- *)
 Theorem lower_denotes : forall decls posts,
   forallb is_decl decls = true -> Forall (post_wf (length decls)) posts ->
-  (forall c, In (SNew c) posts -> kf_or_not (fold_cons c) = false) ->
   forall s ps, lower (build (decls ++ posts)) = LOk s ps -> doms_nonempty s = true ->
   forall a, (exists a', agree (length decls) a a' /\ inst a' s /\ allsat ps a') <->
             (inst a (map decl_dom decls) /\
@@ -97,8 +120,6 @@ Print Assumptions lower_denotes.
 Theorem spellings_agree : forall decls posts1 posts2 s1 ps1 s2 ps2,
   forallb is_decl decls = true ->
   Forall (post_wf (length decls)) posts1 -> Forall (post_wf (length decls)) posts2 ->
-  (forall c, In (SNew c) posts1 -> kf_or_not (fold_cons c) = false) ->
-  (forall c, In (SNew c) posts2 -> kf_or_not (fold_cons c) = false) ->
   (forall a, (forall st c, In st posts1 -> stmt_cons st = Some c -> eval_cons c a = Some true) <->
              (forall st c, In st posts2 -> stmt_cons st = Some c -> eval_cons c a = Some true)) ->
   lower (build (decls ++ posts1)) = LOk s1 ps1 -> lower (build (decls ++ posts2)) = LOk s2 ps2 ->
@@ -121,7 +142,6 @@ Theorem fluent_model_solutions : forall (den : pdesc -> prop), (forall p a, sat 
   forall decls posts s ps pick sols best,
   forallb is_decl decls = true ->
   Forall (post_wf (length decls)) posts ->
-  (forall c, In (SNew c) posts -> kf_or_not (fold_cons c) = false) ->
   lower (build (decls ++ posts)) = LOk s ps ->
   Forall good (map den ps) -> scoped (map den ps) (length s) -> wf_store s ->
   enumerate pick (map den ps) s = SOk sols best ->
@@ -132,20 +152,66 @@ Theorem fluent_model_solutions : forall (den : pdesc -> prop), (forall p a, sat 
 Proof. exact LowerSolve.fluent_model_solutions. Qed.
 Print Assumptions fluent_model_solutions.
 
-(* ---- the known classes contain genuine counterexamples ---- *)
-Theorem or_refuted : exists decls c a s ps,
-  kf_or_not (fold_cons c) = true /\ lower (build (decls ++ [SNew c])) = LOk s ps /\
+(* ---- D3 before the repair: the pre-repair lowering (lower_prefix) lost assignments or let wrong ones through ---- *)
+Theorem or_prefix_refuted : exists decls c a s ps,
+  kf_or_not (fold_cons c) = true /\ lower_prefix (build (decls ++ [SNew c])) = LOk s ps /\
   inst a (map decl_dom decls) /\ eval_cons c a = Some true /\
   ~ (exists a', agree (length decls) a a' /\ inst a' s /\ allsat ps a').
-Proof. exact LowerProofs.or_refuted. Qed.
-Print Assumptions or_refuted.
+Proof. exact LowerProofs.or_prefix_refuted. Qed.
+Print Assumptions or_prefix_refuted.
 
-Theorem not_refuted : exists decls c a s ps,
-  kf_or_not (fold_cons c) = true /\ lower (build (decls ++ [SNew c])) = LOk s ps /\
+Theorem not_prefix_refuted : exists decls c a s ps,
+  kf_or_not (fold_cons c) = true /\ lower_prefix (build (decls ++ [SNew c])) = LOk s ps /\
   inst a (map decl_dom decls) /\ eval_cons c a = Some true /\
   ~ (exists a', agree (length decls) a a' /\ inst a' s /\ allsat ps a').
-Proof. exact LowerProofs.not_refuted. Qed.
-Print Assumptions not_refuted.
+Proof. exact LowerProofs.not_prefix_refuted. Qed.
+Print Assumptions not_prefix_refuted.
+
+(* ---- D3 repaired: the same witnesses.  x in 0..3: x <= 1 \/ x >= 3 has exactly 0, 1, 3;
+   not (x <= 1) exactly 2, 3; the lowered models are in range and valid ---- *)
+Theorem or_repaired : exists s ps,
+  lower (build ([SInt 0 3] ++ [SNew (COr (CBin x0 OLe (EVal 1)) (CBin x0 OGe (EVal 3)))])) = LOk s ps /\
+  doms_nonempty s = true /\ validate s ps = None /\
+  (forall k, In k [0; 1; 3] -> exists a', agree 1 (fun _ => k) a' /\ inst a' s /\ allsat ps a') /\
+  ~ (exists a', agree 1 (fun _ => 2) a' /\ inst a' s /\ allsat ps a').
+Proof. exact LowerProofs.or_repaired. Qed.
+Print Assumptions or_repaired.
+
+Theorem not_repaired : exists s ps,
+  lower (build ([SInt 0 3] ++ [SNew (CNot (CBin x0 OLe (EVal 1)))])) = LOk s ps /\
+  doms_nonempty s = true /\ validate s ps = None /\
+  (forall k, In k [2; 3] -> exists a', agree 1 (fun _ => k) a' /\ inst a' s /\ allsat ps a') /\
+  (forall k, In k [0; 1] -> ~ (exists a', agree 1 (fun _ => k) a' /\ inst a' s /\ allsat ps a')).
+Proof. exact LowerProofs.not_repaired. Qed.
+Print Assumptions not_repaired.
+
+(* the propagators the reified lowering pushes meet the local contracts (C05_Logic, C05) *)
+Theorem reified_kinds_good :
+  (forall op x y b, good (den_basic (PCmpR op x y b))) /\
+  (forall xs r, good (den_basic (PAndR xs r))) /\ (forall xs r, good (den_basic (POrR xs r))) /\
+  (forall o r, good (den_basic (PNotR o r))) /\
+  (forall cs xs k b, all_zero cs xs = false ->
+     good (den_basic (PLinEqR cs xs k b)) /\ good (den_basic (PLinLeR cs xs k b)) /\ good (den_basic (PLinNeR cs xs k b))).
+Proof.
+  exact (conj LowerSolve.pcmpr_good (conj LowerSolve.pandr_good (conj LowerSolve.porr_good (conj LowerSolve.pnotr_good LowerSolve.plinr_good)))).
+Qed.
+Print Assumptions reified_kinds_good.
+
+(* end to end through the engine model (enumerate, fifo): x in 0..3; x <= 1 \/ x >= 3 yields x = 0, 1, 3;
+   not (x <= 1) yields 2, 3; not (x <= 0 \/ (x >= 2 /\ x != 3)) yields 1, 3 -- each once *)
+Theorem or_not_repaired_enumerate :
+  (exists s ps sols best,
+    lower (build ([SInt 0 3] ++ [SNew (COr (CBin x0 OLe (EVal 1)) (CBin x0 OGe (EVal 3)))])) = LOk s ps /\
+    enumerate fifo (map den_basic ps) s = SOk sols best /\ user0 sols = [0; 1; 3]) /\
+  (exists s ps sols best,
+    lower (build ([SInt 0 3] ++ [SNew (CNot (CBin x0 OLe (EVal 1)))])) = LOk s ps /\
+    enumerate fifo (map den_basic ps) s = SOk sols best /\ user0 sols = [2; 3]) /\
+  (exists s ps sols best,
+    let c := CNot (COr (CBin x0 OLe (EVal 0)) (CAnd (CBin x0 OGe (EVal 2)) (CBin x0 ONe (EVal 3)))) in
+    lower (build ([SInt 0 3] ++ [SNew c])) = LOk s ps /\
+    enumerate fifo (map den_basic ps) s = SOk sols best /\ user0 sols = [1; 3]).
+Proof. exact LowerSolve.or_not_repaired_enumerate. Qed.
+Print Assumptions or_not_repaired_enumerate.
 
 (* ---- repaired (D5): the product of x = y = 50 fits its auxiliary variable; the lowered model is
    in range, valid, and has the solution ---- *)
@@ -219,6 +285,13 @@ Example c10_lowering_example :
         [PLinLe [1; 1] [0%nat; 1%nat] 3; PMul (VVar 0) (VVar 1) 2; PEq (VVar 2) (VVar 3)].
 Proof. vm_compute. reflexivity. Qed.
 
+(* the dump of a reified lowering: x0 in 0..3, not (x0 <= 1 \/ x0 * x0 == 4) *)
+Example c10_reified_lowering_example :
+  lower (build [SInt 0 3; SNew (CNot (COr (CBin x0 OLe (EVal 1)) (CBin (EMul x0 x0) OEq (EVal 4))))])
+  = LOk [drange 0 3; [1]; drange 0 1; drange 0 9; [4]; drange 0 1; drange 0 1]
+        [PCmpR OLe 0 1 2; PMul (VVar 0) (VVar 0) 3; PCmpR OEq 3 4 5; POrR [2%nat; 5%nat] 6; PEq (VVar 6) (VConst 0)].
+Proof. vm_compute. reflexivity. Qed.
+
 (* ---- the helpers over a Vec<Constraint>: and_all / or_all (Constraint::and_all / or_all and the free functions),
    all_of = and_all, any_of = or_all (Model/Api.v c_and_all ..): None exactly on the empty vector, otherwise a
    left-nested chain ---- *)
@@ -243,7 +316,7 @@ Theorem or_all_eval : forall cs c a, c_or_all cs = Some c ->
 Proof. exact LowerProofs.or_all_eval. Qed.
 Print Assumptions or_all_eval.
 (* lowering: and_all / all_of is faithful — the members are materialised one after the other, the chain is in the
-   class kf_or_not only if a member is, and what the lowering enforces is the conjunction *)
+   former class kf_or_not only if a member is, and what the lowering enforces is the conjunction *)
 Theorem and_all_materialize : forall cs c st, c_and_all cs = Some c ->
   materialize c st = fold_left (fun st x => materialize x st) cs st.
 Proof. exact LowerProofs.and_all_materialize. Qed.
@@ -254,13 +327,23 @@ Print Assumptions and_all_kf.
 Theorem and_all_impl : forall cs c a, c_and_all cs = Some c -> impl_cons c a = forallb (fun x => impl_cons x a) cs.
 Proof. exact LowerProofs.and_all_impl. Qed.
 Print Assumptions and_all_impl.
-(* or_all / any_of of three or more members always lies in the known class D3 (Or lowered like And) *)
+(* or_all / any_of of three or more members always lay in the former class D3 (kf_or_not: the trees the
+   pre-repair lowering got wrong); the repaired lowering handles the chain by nested reification *)
 Theorem or_all_kf : forall c0 c1 c2 r c, c_or_all (c0 :: c1 :: c2 :: r) = Some c -> kf_or_not c = true.
 Proof. exact LowerProofs.or_all_kf. Qed.
 Print Assumptions or_all_kf.
-Theorem any_of_refuted : exists decls cs c a s ps,
-  c_any_of cs = Some c /\ kf_or_not (fold_cons c) = true /\ lower (build (decls ++ [SNew c])) = LOk s ps /\
+Theorem any_of_prefix_refuted : exists decls cs c a s ps,
+  c_any_of cs = Some c /\ kf_or_not (fold_cons c) = true /\ lower_prefix (build (decls ++ [SNew c])) = LOk s ps /\
   inst a (map decl_dom decls) /\ eval_cons c a = Some true /\
   ~ (exists a', agree (length decls) a a' /\ inst a' s /\ allsat ps a').
-Proof. exact LowerProofs.any_of_refuted. Qed.
-Print Assumptions any_of_refuted.
+Proof. exact LowerProofs.any_of_prefix_refuted. Qed.
+Print Assumptions any_of_prefix_refuted.
+(* repaired: x in 0..3, any_of([x <= 0, x == 2, x >= 3]) has exactly 0, 2, 3 *)
+Theorem any_of_repaired : exists cs s ps,
+  c_any_of cs = Some (COr (COr (CBin x0 OLe (EVal 0)) (CBin x0 OEq (EVal 2))) (CBin x0 OGe (EVal 3))) /\
+  lower (build ([SInt 0 3] ++ [SNew (COr (COr (CBin x0 OLe (EVal 0)) (CBin x0 OEq (EVal 2))) (CBin x0 OGe (EVal 3)))])) = LOk s ps /\
+  doms_nonempty s = true /\ validate s ps = None /\
+  (forall k, In k [0; 2; 3] -> exists a', agree 1 (fun _ => k) a' /\ inst a' s /\ allsat ps a') /\
+  ~ (exists a', agree 1 (fun _ => 1) a' /\ inst a' s /\ allsat ps a').
+Proof. exact LowerProofs.any_of_repaired. Qed.
+Print Assumptions any_of_repaired.
